@@ -506,6 +506,13 @@ def run_task(task):
         stats.inc(f"fault.input_{f['kind']}")
     for kind, _k in api["fired"]:
         stats.inc(f"fault.output_{kind}")
+    for feat in ("prelude", "neighbours", "file_symlinks", "symlinks", "input_missing", "many", "allow_changes", "target_pre"):
+        if w.get(feat):
+            stats.inc("probe.workload_" + feat)
+    if any(p_.get("suspend") for p_ in w.get("prelude") or []):
+        stats.inc("probe.workload_suspended_iterator")
+    if w["input_file"].endswith(".json") and w.get("infmt") not in (None, "json_qcschema"):
+        stats.inc("probe.workload_wrong_format_quoting_braces")
     if w["subprocess"]:
         stats.inc("probe.subprocess_runs")
     if w["many"]:
